@@ -465,3 +465,7 @@ N('benign.separator-count-named', [(P + 'common/parse.py',
 # the renegotiation SCSV written only for a hello without extensions: the flag of a hello that has some does not survive compose / parse
 B('C06.scsv-depends-on-extensions', ['C06', 'C05', 'C01'], [(P + 'tls/subprotocol.py', "        if self.empty_renegotiation_info_scsv:\n",
   "        if self.empty_renegotiation_info_scsv and not len(self.extensions):\n")], mention=['C06.R9', 'EMPTY_RENEGOTIATION_INFO_SCSV'])
+# vector edits: an item that is None is an item; a position the list refuses is refused before anything is booked
+B('C12.none-item-not-booked', ['C12'], [(P + 'common/base.py', "        for item in insert_items:\n            size_diff += self.param.get_item_size(item)\n",
+  "        for item in insert_items:\n            if item is not None:\n                size_diff += self.param.get_item_size(item)\n")], mention=['C12.R9'])
+B('C12.insert-books-before-position-check', ['C12'], [(P + 'common/base.py', "        operator.index(index)\n\n", "")], mention=['C12.R9', 'insert'])
